@@ -228,6 +228,17 @@ Proof.
     apply in_app_or in Hr. destruct Hr as [Hr|Hr]; eauto. }
 Qed.
 
+(* every crt-list a bind names is a file the instance writes for that very state: the two
+   emission conditions (template: HasTLS / $fmaps; writers: len(TLS) > 0 / the frontend maps) agree *)
+Theorem template_crtlists_written : forall st r, In r (file_refs st) -> In (snd r) (written_files st).
+Proof.
+  intros st r H. unfold file_refs in H. unfold written_files. apply in_app_or in H. apply in_or_app.
+  destruct H as [H|H].
+  - left. apply in_flat_map in H. destruct H as [t [Ht H]]. apply in_flat_map. exists t. split; [exact Ht|].
+    destruct (tt_tls t); [|destruct H]. destruct H as [<-|[]]. now left.
+  - right. destruct (ts_fmaps st); [|destruct H]. destruct H as [<-|[]]. now left.
+Qed.
+
 (* ------------------------------------------------------------------ Hosts bookkeeping *)
 
 Section Assoc.
@@ -614,9 +625,9 @@ Definition tmpl_example : tstate :=
      ts_default := Some "ns1_svc1_8080";
      ts_userlists := ["ns1_basic"]; ts_resolvers := ["kube"];
      ts_tcpbacks := [("ns1_svc1", 5432%N)];
-     ts_tcp := [ {| tt_port := 7000%N; tt_hosts := [("t.example", "ns1_svc2_8080")]; tt_default := Some "ns1_svc1_8080" |} ];
+     ts_tcp := [ {| tt_port := 7000%N; tt_hosts := [("t.example", "ns1_svc2_8080")]; tt_default := Some "ns1_svc1_8080"; tt_tls := true |} ];
      ts_authname := "_front__auth"; ts_binds := [ {| ab_name := "_auth_14415"; ab_backend := "_auth_backend001_8000" |} ];
-     ts_fmaps := true; ts_httpsname := "_front_https__local";
+     ts_fmaps := true; ts_httpsname := "_front_https__local"; ts_crtlist := "/etc/haproxy/maps/_front_bind_crt.list";
      ts_acme := true; ts_modsec := true; ts_prom := true |}.
 
 Example tmpl_example_inv : st_inv tmpl_example = true.
@@ -647,7 +658,7 @@ Definition strict_host_state : tstate :=
      ts_defhost := None; ts_haspass := false;
      ts_backs := [ {| tb_id := "ns1_svc3_8080"; tb_tcp := false; tb_userlists := []; tb_auth := []; tb_resolver := "" |} ];
      ts_default := None; ts_userlists := []; ts_resolvers := []; ts_tcpbacks := []; ts_tcp := [];
-     ts_authname := "_front__auth__local"; ts_binds := []; ts_fmaps := true; ts_httpsname := "_front_https";
+     ts_authname := "_front__auth__local"; ts_binds := []; ts_fmaps := true; ts_httpsname := "_front_https"; ts_crtlist := "/etc/haproxy/maps/_front_bind_crt.list";
      ts_acme := false; ts_modsec := false; ts_prom := false |}.
 
 Theorem template_refs_closed_without_host_backends_refuted :
@@ -663,3 +674,9 @@ Qed.
 (* the same state is rejected by the checker on the structure it generates *)
 Example strict_host_state_not_wellformed : wellformed (gen_cfg strict_host_state) = false.
 Proof. vm_compute. reflexivity. Qed.
+
+Example tmpl_example_crtlists :
+  file_refs tmpl_example = [("_front_tcp_7000", "/etc/haproxy/crtlist_tcp_7000.list");
+                            ("_front_https__local", "/etc/haproxy/maps/_front_bind_crt.list")].
+Proof. vm_compute. reflexivity. Qed.
+
